@@ -3,6 +3,7 @@ package props
 import (
 	"fmt"
 	"os"
+	"strconv"
 	"strings"
 	"testing"
 
@@ -97,6 +98,25 @@ func genC01(t *rapid.T) caseC01 {
 	gen.PGInit(g)
 
 	var top []*gen.Stmt
+	// 15%: unrelated declarations in front, so that the variables and the
+	// literals of the expression get arbitrary slots and constant indices
+	// (an instruction's operand byte then takes every small value, also those
+	// that coincide with an opcode)
+	if gen.Chance(t, 15, "prelude") {
+		k := gen.Uniform(t, 41, "preludeN")
+		if gen.Chance(t, 30, "preludeBig") {
+			k = gen.Uniform(t, 301, "preludeN2")
+		}
+		for i := 0; i < k; i++ {
+			var lit *gen.Expr
+			if gen.Chance(t, 70, "preludeConst") {
+				lit = &gen.Expr{K: "int", T: strconv.Itoa(100000 + i)}
+			} else {
+				lit = &gen.Expr{K: "nil"}
+			}
+			top = append(top, &gen.Stmt{K: "var", Name: "z" + strconv.Itoa(i), E: lit})
+		}
+	}
 	// variables of every dynamic type
 	vnames := []string{"a", "b", "c"}
 	for _, n := range vnames {
